@@ -270,6 +270,7 @@ def C20(ctx):
     RP.check_positional_fetch(ctx, uf)
     RP.check_float_lengths(ctx, uf)
     RP.check_digits_length(ctx, uf)
+    RP.check_star_width(ctx, uf)
     RP.check_sized_text(ctx, uf)
     RP.check_grouping_cursor(ctx, uf)
     ctx.rule("R.self-recursion", "no parser or helper calls itself on every path", 0)
@@ -292,14 +293,18 @@ def C19(ctx):
     RP.check_agent_discipline(ctx, uf)
     RP.check_fmt_spec(ctx, uf)
     RP.check_sized_text(ctx, uf)
+    RP.check_field_layout(ctx, uf)
     ctx.rule("B6.fmt-width-range", "the {}-spec parser rejects a width before the step that would overflow it (so an "
              "out-of-range width makes the spec malformed and it is echoed unchanged)", 1)
     RST.check_accumulation(ctx, "B6.fmt-width-range", [f for f in uf.functions if f.name == "parse_fmt_spec"][:1], strict_unsigned=True)
     RP.check_logger(ctx, uf)
-    return ("Structural rim of C19 only: the length-modifier table of the integer conversions (every modifier handled, widths "
-            "and signedness, sibling agreement), exactly one argument popped per conversion, agent results tested and "
-            "propagated, accepted {}-conversion letters and echo sites, logger buffer writes guarded and flushed in order. "
-            "NOT decided: byte-for-byte agreement with ISO C printf (a numeric/string result over runtime values).")
+    return ("Structural clauses of C19: the length-modifier table of the integer conversions (every modifier handled, widths "
+            "and signedness, sibling agreement), exactly one argument popped per conversion, the layout of the integer field "
+            "(every conversion path reaches the field routine, zero padding only without a precision and only between sign and "
+            "digits, sign flags for signed conversions only, the width accounts for the sign), every {}-conversion rendered, "
+            "sized text never passed on without its length, agent results tested and propagated, accepted {}-conversion "
+            "letters and echo sites, logger buffer writes guarded and flushed in order. NOT decided: the digits themselves "
+            "and the float conversions (numeric/string results over runtime values).")
 
 
 def C17(ctx):
